@@ -1,6 +1,7 @@
 """Python-layer contracts of the 2-D stiffener classes (C12 / C13): TStiff2D and BladeStiff2D build base and flange panels and
 call the connection kernels; the obligations are about WHERE (rows/columns) and WITH WHAT (interface lines, penalty constants,
 edge flags, sizes) those kernels are called."""
+import itertools
 from fractions import Fraction
 
 from ..poly import P, normal
@@ -242,7 +243,61 @@ def check_kt_kr(led):
                 if not ok:
                     probs.append('%s is not homogeneous of degree 1 in the laminate stiffnesses (hence not linear in the moduli)' % nm)
             report(led, name, func, probs)
+    # the constants belong to the laminates of the CURRENT panel definitions: a panel that was evaluated before and whose laminate
+    # definition was changed afterwards gives the constants of a fresh panel with the new definition
+    CH = {'plyt': lambda p: p.attrs.__setitem__('plyt', real('plyt_changed')),
+          'laminaprop': lambda p: p.attrs.__setitem__('laminaprop', tuple(real(x + '_changed') for x in MAT)),
+          'stack': lambda p: p.attrs.__setitem__('stack', [real('th0_changed'), real('th1_changed')])}
+    for kind, ch, which in itertools.product(('xcte', 'ycte', 'bot-top', 'xcte-ycte'), sorted(CH), (0, 1)):
+        def run():
+            ps = two_panels()
+            it.call(it.getattr(ps[which], 'calc_k0'), [], dict(silent=True))
+            r0 = it.call(f, [ps[0], ps[1], kind], {})
+            CH[ch](ps[which])
+            r1 = it.call(f, [ps[0], ps[1], kind], {})
+            fresh = two_panels()
+            CH[ch](fresh[which])
+            rf = it.call(f, [fresh[0], fresh[1], kind], {})
+            return r0, r1, rf
+        for path, out in it.explore(run):
+            name = '%s[%s]/follows-a-change-of-%s-of-panel-%d' % (func, kind, ch, which + 1)
+            if out[0] != 'return':
+                report(led, name + '/no-exception', func, ['raises %s%s' % (out[1].tname, tuple(str(x)[:80] for x in out[1].eargs))], signature='raise')
+                continue
+            r0, r1, rf = out[1]
+            probs = []
+            for nm, a_, b_ in (('kt', r1[0], rf[0]), ('kr', r1[1], rf[1])):
+                if (a_ is None) != (b_ is None) or (a_ is not None and not rational_close(a_, b_)[0]):
+                    probs.append('%s after the change is %s, a fresh panel with the new definition gives %s%s'
+                                 % (nm, pycheck.describe(a_)[:120], pycheck.describe(b_)[:120],
+                                    ' (it is still the value of the old definition)' if a_ is not None and rational_close(a_, r0[0 if nm == 'kt' else 1])[0] else ''))
+            report(led, name, func, probs, replay=replay_kt_kr_stale if probs else None, signature='stale-laminate:%s' % ch)
     led.solver_time('z3-feasibility', it.solver_time)
+
+
+def replay_kt_kr_stale():
+    from ..pyreplay import run_real
+    script = '''
+import numpy as np
+from compmech.panel import Panel
+from compmech.panel.connections.penalty_constants import calc_kt_kr
+lp = (142.5e9, 8.7e9, 0.28, 5.1e9, 5.1e9, 5.1e9)
+def mk(scale):
+    return Panel(a=1., b=0.5, stack=[0, 45, -45, 90], plyt=1.25e-4, laminaprop=(lp[0]*scale, lp[1]*scale, lp[2], lp[3]*scale, lp[4]*scale, lp[5]*scale), m=4, n=4)
+p1, p2 = mk(1.), mk(1.)
+p1.calc_k0(silent=True); p2.calc_k0(silent=True)
+before = calc_kt_kr(p1, p2, 'ycte')
+for p in (p1, p2):
+    p.laminaprop = tuple(mk(3.).laminaprop)
+after = calc_kt_kr(p1, p2, 'ycte')
+fresh = calc_kt_kr(mk(3.), mk(3.), 'ycte')
+out = {"before": [float(x) for x in before], "after_change": [float(x) for x in after], "fresh_with_new_definition": [float(x) for x in fresh]}
+'''
+    r = run_real(script, {})
+    a, f_ = r.get('after_change'), r.get('fresh_with_new_definition')
+    r['reproduced'] = bool(r.get('raised') or (a and f_ and any(abs(x - y) > 1e-9 * abs(y) for x, y in zip(a, f_))))
+    r['input'] = 'two evaluated plates, moduli of both multiplied by 3 afterwards, calc_kt_kr(p1, p2, "ycte")'
+    return r
 
 
 def homogeneous_degree_one(val, lam_atoms):
